@@ -95,14 +95,12 @@ def beBytes : Nat → Nat → Bytes
 abbrev SRow := Nat × Nat × Nat
 
 /-- a row is well formed for the widths: each field fits its width (a width may exceed 4 bytes)
-and 32 bits; with `w1 = 0` the type is the default 1; the third field fits 16 bits; the type is
-one of the three DEFINED types 0, 1, 2.
-DEVIATION (finding F-C02-b): Table 18 says "any other value shall be interpreted as a reference
-to the null object"; lopdf reads only the type field of such a row and NOT its other two
-fields, so every later row is misread (`unknownType_desync` in Thm/C02XrefStm.lean). Rows of an
-undefined type are therefore outside the relation. -/
+and 32 bits; with `w1 = 0` the type is the default 1; the third field fits 16 bits. The type is
+ANY value the first field can hold: Table 18 says a value other than 0, 1, 2 "shall be
+interpreted as a reference to the null object" — such a row has the same three fields and
+contributes no entry (`rowEntry`), exactly like a free row. -/
 def RowOk (w1 w2 w3 : Nat) (r : SRow) : Prop :=
-  (if w1 = 0 then r.1 = 1 else r.1 < 256 ^ w1 ∧ r.1 ≤ 2) ∧
+  (if w1 = 0 then r.1 = 1 else r.1 < 256 ^ w1 ∧ r.1 < 4294967296) ∧
   r.2.1 < 256 ^ w2 ∧ r.2.1 < 4294967296 ∧ r.2.2 < 256 ^ w3 ∧ r.2.2 < 65536
 
 def encodeRow (w1 w2 w3 : Nat) (r : SRow) : Bytes :=
